@@ -126,6 +126,17 @@ type U1 struct{}
 type O1 struct{}
 type US interface { St[U1] }
 type OS interface { St[O1] }
+type Cons interface {
+	C1(m map[string]q.T)
+	C2(c chan q.T)
+	C3(f func(q.T) error)
+	C4(s struct{ F q.T })
+	C5(a [2]q.T)
+	C6(p **q.T)
+	C7(i interface{ Do(x q.T) })
+	C8(v ...func() q.T)
+	C9(g G[q.T]) map[q.T][]chan *q.T
+}
 `
 
 type mockSetup struct {
@@ -416,6 +427,7 @@ func HMock(props ...string) *Harness {
 			"instantiations":      {"US", "OS", "St"},
 			"generics":            {"G", "AG", "CK"},
 			"constraints":         {"L", "SO", "Repo", "I2"},
+			"type-constructors":   {"Cons", "I1"},
 		}
 		for k := 0; k <= maxK; k++ {
 			for _, mode := range []string{"same", "unknown", "other"} {
@@ -556,7 +568,7 @@ func runMock(ic *IC, ex *exec.Exec, env *Env, fn exec.Value, pkgs map[string]*ty
 	})
 
 	// reference: which scope object each argument names
-	ifaceObjs := []string{"I1", "I2", "G", "L", "K", "AG", "SO", "Cmp", "Repo", "CK", "St", "US", "OS"}
+	ifaceObjs := []string{"I1", "I2", "G", "L", "K", "AG", "SO", "Cmp", "Repo", "CK", "St", "US", "OS", "Cons"}
 	{
 		var present []string
 		for _, n := range ifaceObjs {
@@ -680,7 +692,7 @@ func runMock(ic *IC, ex *exec.Exec, env *Env, fn exec.Value, pkgs map[string]*ty
 			ex.Fail("C20: cannot determine which interface argument " + fmt.Sprint(i) + " resolved to")
 			continue
 		}
-		if obj.Tag == "L" || obj.Tag == "SO" || obj.Tag == "Repo" || obj.Tag == "US" || obj.Tag == "OS" { // L's signature and SO's constraint mention a source-package type
+		if obj.Tag == "L" || obj.Tag == "SO" || obj.Tag == "Repo" || obj.Tag == "US" || obj.Tag == "OS" || obj.Tag == "Cons" { // L's signature and SO's constraint mention a source-package type
 			usesSrcType = true
 		}
 		iface := obj.Typ.Underlying()
@@ -820,7 +832,7 @@ func mockCLICase(m map[string]string, k int, mode string) *CLICase {
 		"p/q/q.go": "package q\n\ntype T struct{}\n",
 		"r/q/q.go": "package q\n\ntype T struct{}\n",
 		"h/h.go":   "package h\n\nimport \"src.example/r/q\"\n\ntype J interface{ Zed(x q.T) }\n",
-		"src/x.go": fmt.Sprintf("package %s\n\nimport (\n\t\"src.example/h\"\n\t\"src.example/p/q\"\n)\n\ntype %s interface {\n\tM0()\n\tM1(a q.T, b int) error\n\tM2(first q.T, rest ...q.T)\n\tM3(chunks ...[]q.T) []q.T\n}\ntype %s interface{}\ntype %s[T any] interface{ Get(k T) T }\ntype %s struct{}\ntype %s interface{ Do(x %s) }\ntype %s interface{ h.J }\ntype %s = %s[int]\ntype %s[T any] interface{ Less(o T) bool }\ntype %s[T %s[T]] interface{ Min() T }\ntype %s string\ntype %s[K interface{ %s }, V any] interface{ Load(id K) (V, error) }\ntype %s[K comparable, V any] interface{ Snap() map[K]V }\ntype %s[T any] interface{ Fetch(id string) (T, error) }\ntype %s struct{}\ntype %s struct{}\ntype %s interface{ %s[%s] }\ntype %s interface{ %s[%s] }\n", src, I1, I2, G, S, L, S, name("K", "K"), name("AG", "AG"), G, name("Cmp", "Cmp"), name("SO", "SO"), name("Cmp", "Cmp"), name("UID", "UID"), name("Repo", "Repo"), name("UID", "UID"), name("CK", "CK"), name("St", "St"), name("U1", "U1"), name("O1", "O1"), name("US", "US"), name("St", "St"), name("U1", "U1"), name("OS", "OS"), name("St", "St"), name("O1", "O1")),
+		"src/x.go": fmt.Sprintf("package %s\n\nimport (\n\t\"src.example/h\"\n\t\"src.example/p/q\"\n)\n\ntype %s interface {\n\tM0()\n\tM1(a q.T, b int) error\n\tM2(first q.T, rest ...q.T)\n\tM3(chunks ...[]q.T) []q.T\n}\ntype %s interface{}\ntype %s[T any] interface{ Get(k T) T }\ntype %s struct{}\ntype %s interface{ Do(x %s) }\ntype %s interface{ h.J }\ntype %s = %s[int]\ntype %s[T any] interface{ Less(o T) bool }\ntype %s[T %s[T]] interface{ Min() T }\ntype %s string\ntype %s[K interface{ %s }, V any] interface{ Load(id K) (V, error) }\ntype %s[K comparable, V any] interface{ Snap() map[K]V }\ntype %s[T any] interface{ Fetch(id string) (T, error) }\ntype %s struct{}\ntype %s struct{}\ntype %s interface{ %s[%s] }\ntype %s interface{ %s[%s] }\ntype %s interface {\n\tC1(m map[string]q.T)\n\tC2(c chan q.T)\n\tC3(f func(q.T) error)\n\tC4(s struct{ F q.T })\n\tC5(a [2]q.T)\n\tC6(p **q.T)\n\tC7(i interface{ Do(x q.T) })\n\tC8(v ...func() q.T)\n\tC9(g %s[q.T]) map[q.T][]chan *q.T\n}\n", src, I1, I2, G, S, L, S, name("K", "K"), name("AG", "AG"), G, name("Cmp", "Cmp"), name("SO", "SO"), name("Cmp", "Cmp"), name("UID", "UID"), name("Repo", "Repo"), name("UID", "UID"), name("CK", "CK"), name("St", "St"), name("U1", "U1"), name("O1", "O1"), name("US", "US"), name("St", "St"), name("U1", "U1"), name("OS", "OS"), name("St", "St"), name("O1", "O1"), name("Cons", "Cons"), G),
 	}
 	var args []string
 	pkg := m["cfg_PkgName"]
